@@ -142,6 +142,60 @@ def inQuantifier (m : AbstractModel) : Bool := WF m && CanonicalAny m && (view m
 def whyOutside (m : AbstractModel) : String :=
   if !WF m then "outside:wf" else if !CanonicalAny m then "outside:canonical" else "outside:refs"
 
+/-! ### the free-layout family (`editfree`) — correspondence only, no theorem
+
+`Spec.Mdl.Canonical` (through `startsOk`) and `Spec.Mdl.relayout` only give a meaning to final
+states whose meshes lie in the index buffer **in mesh order and packed**; `c07_edit_then_parse_*`
+therefore say nothing about a history after which a LOD's meshes lie in another order or with gaps
+between them, although such a history supplies "contiguous sub-mesh splits consistently for every
+mesh of the LOD" just as well.  For these the driver computes the expected answer directly: the
+re-parsed file must report the supplied geometry — `view` of the abstract final state, which does
+not look at the layout when there are no shape meshes (vertices, indices, sub-mesh ranges, raw
+streams and names are taken from the meshes as they are) — with all header flags ok. -/
+
+/-- `CanonicalAny` without `startsOk` -/
+def canonicalFree (m : AbstractModel) : Bool :=
+  isV5 m.version && m.terrainShadowMeshes.isEmpty && m.terrainShadowSubmeshes.isEmpty &&
+  (m.lods.drop m.lodCount.toNat).all (fun l => l.meshes.isEmpty) &&
+  (allMeshes m).all canonicalMeshAny &&
+  f32Ok m.misc.radius && f32Ok m.misc.modelClipOutOfDistance && f32Ok m.misc.shadowClipOutOfDistance &&
+  m.lods.all (fun l => noNaNBlock (l.mid.take 8)) &&
+  m.elementIds.all (fun e => noNaNBlock (e.drop 8)) && noNaNBlock m.boundingBoxes &&
+  m.boneBoundingBoxes.all noNaNBlock
+
+/-- index range `(start, count)` of a mesh: from its first sub-mesh's offset, as many words as it
+has indices -/
+def meshRange (m : AMesh) : Option (Nat × Nat) :=
+  match m.submeshes with
+  | s :: _ => some (s.indexOffset.toNat, m.indices.length)
+  | [] => none
+
+/-- the sub-meshes a mesh carries split its range contiguously -/
+def subsContiguous (m : AMesh) : Bool :=
+  match meshRange m with
+  | none => false
+  | some (start, n) =>
+    let rec go : Nat → List Submesh → Bool
+      | pos, [] => pos == start + n
+      | pos, s :: rest => s.indexOffset.toNat == pos && go (pos + s.indexCount.toNat) rest
+    go start m.submeshes
+
+/-- the ranges of the meshes of every LOD in use are pairwise disjoint and below 2³¹ words -/
+def rangesDisjoint (l : ALod) : Bool :=
+  let rs := l.meshes.filterMap meshRange
+  rs.length == l.meshes.length && rs.all (fun r => r.1 + r.2 < 2147483648) &&
+  (List.range rs.length).all fun i => (List.range rs.length).all fun j =>
+    i ≥ j || match rs[i]?, rs[j]? with
+      | some a, some b => a.1 + a.2 ≤ b.1 || b.1 + b.2 ≤ a.1
+      | _, _ => true
+
+/-- final state of a free-layout history: everything `inQuantifier` asks except the mesh-order
+starts, no shape meshes, consistent ranges -/
+def freeOk (m : AbstractModel) : Bool :=
+  WF m && canonicalFree m && m.shapeMeshes.isEmpty && m.shapeValues.isEmpty &&
+  (m.lods.take m.lodCount.toNat).all (fun l => rangesDisjoint l && l.meshes.all subsContiguous) &&
+  !hasUnwritable m && (view m).isSome
+
 def kfTags (m : AbstractModel) : List String :=
   if hasUnwritable m then ["kf:c07.writer-unsupported-layout"] else []
 
@@ -172,6 +226,25 @@ def handle (line : String) : String :=
           match inQuantifier a && inQuantifier a', view a' with
           | true, some v => answer input (specText (!es.isEmpty) v) (kfTags a') (some ans)
           | _, _ => answer input ans ["triv", if inQuantifier a then whyOutside a' else whyOutside a]
+        | none => answer input ans ["triv", "outside:edit"]
+    | _, _ => bad
+  | "editfree" :: toks =>
+    let (mt, et) := splitBar toks
+    match parseModel mt, et.mapM parseEdit with
+    | some a, some es =>
+      match concretizeAll a es with
+      | none => bad
+      | some ces =>
+        let file := encodeMdl a
+        let (ans, _) := modelRun file ces
+        let input := "edit " ++ Bytes.toHex file ++ String.join (ces.map fun c => " " ++ ceditText c)
+        match applyEdits a es with
+        | some a' =>
+          match inQuantifier a && !es.isEmpty && freeOk a', view a' with
+          | true, some v =>
+            answer input (specText true v)
+              ["corr", if inQuantifier a' then "layout:meshorder" else "layout:free"] (some ans)
+          | _, _ => answer input ans ["triv", "outside:free"]
         | none => answer input ans ["triv", "outside:edit"]
     | _, _ => bad
   | "wbytes" :: toks =>
